@@ -100,6 +100,8 @@ class Tr:
         self.columns: list[str] = []
         self.classes: list[str] = []
         self.methods: list[str] = []
+        self.helpers: dict = {}       # private methods (name -> FunctionDef) a translated body may call as self._x()
+        self.inlining: list[str] = []
 
     def tid(self, name: str) -> int:
         if name not in self.tables:
@@ -181,6 +183,18 @@ class Tr:
                 # self._assert(...), self._logger.x(...)
                 if _is_self_attr(f, "_assert"):
                     return [([], False)]
+                # an extracted private helper, called without arguments: its body is translated in place (so a commit
+                # or an INSERT moved into a helper is still seen); a `return` inside it only ends the helper
+                if _is_self_attr(f) and f.attr in self.helpers and f.attr.startswith("_") and not f.attr.startswith("__") \
+                        and not call.args and not call.keywords:
+                    if f.attr in self.inlining or len(self.inlining) >= 3:
+                        raise TranslatorError(f"{where}: helper {f.attr} is recursive or nested too deeply")
+                    self.inlining.append(f.attr)
+                    try:
+                        inner = self.stmt_paths(self.helpers[f.attr].body, f"{where}/{f.attr}", in_commit, info)
+                    finally:
+                        self.inlining.pop()
+                    return [((ops[:-1] if ops and ops[-1] == ("ret",) else ops), False) for ops, _fin in inner]
                 if isinstance(f.value, ast.Attribute) and _is_self_attr(f.value, "_logger"):
                     return [([], False)]
                 if _is_self_attr(f, "commit"):
@@ -565,6 +579,10 @@ def translate() -> tuple[str, dict]:
         raise TranslatorError("Database.commit not found")
     info: dict = {}
     raw = []
+    base_helpers = {n.name: n for n in base_cls.body if isinstance(n, ast.FunctionDef)
+                    and n.name.startswith("_") and not n.name.startswith("__") and not n.decorator_list
+                    and [a.arg for a in n.args.args] == ["self"] and n.name != "_assert"}
+    tr.helpers = dict(base_helpers)
     paths = [([], False, None)]
     for st in commit.body:
         alts = tr.one_stmt(st, "Database.commit", True, info)
@@ -648,6 +666,10 @@ def translate() -> tuple[str, dict]:
         if clsname not in tr.classes:
             tr.classes.append(clsname)
         fns = [n for n in cls.body if isinstance(n, ast.FunctionDef) and n.name.startswith("insert_")]
+        tr.helpers = dict(base_helpers)
+        tr.helpers.update({n.name: n for n in cls.body if isinstance(n, ast.FunctionDef) and n.name.startswith("_")
+                           and not n.name.startswith("__") and not n.decorator_list
+                           and [a.arg for a in n.args.args] == ["self"]})
         if not fns:
             raise TranslatorError(f"{clsname}: no insert_* method")
         for fn in fns:
